@@ -77,12 +77,15 @@ Section Generic.
   Definition del_some (v : Z) (committed : list (vkey * V)) (ks : list bytes) (es : list (vkey * V)) : list (vkey * V) :=
     fold_left (fun es f => if emem v f committed then edel v f es else es) ks es.
 
-  (* *Clear / *DeleteAll of an existing collection: meta deleted; element keys deleted only under
-     local_deletion (wait_compact leaves them to the compaction filter) *)
-  Definition clear_coll (compact : bool) (c : coll V) : coll V :=
+  (* *Clear / *DeleteAll of an existing collection: meta deleted; the element keys are left to the
+     compaction filter (lazy) under wait_compact when the generation is below the timestamp of the
+     clearing entry (fix 1dcd66e: a collection re-created at this same timestamp would get the same
+     generation number), otherwise deleted *)
+  Definition lazy_clear (compact : bool) (ts v : Z) : bool := compact && (v <? ts).
+  Definition clear_coll (lazy : bool) (c : coll V) : coll V :=
     match c_meta c with
     | None => c
-    | Some m => Build_coll None (if compact then c_elems c else drop_gen (cm_ver m) (c_elems c))
+    | Some m => Build_coll None (if lazy then c_elems c else drop_gen (cm_ver m) (c_elems c))
     end.
 End Generic.
 
@@ -148,10 +151,10 @@ Definition hincrby (compact : bool) (ts : Z) (key f : bytes) (delta : Z) (c : hc
     end.
 
 (* HClear *)
-Definition hclear (compact : bool) (key : bytes) (c : hcoll) : hcoll * reply :=
+Definition hclear (compact : bool) (ts : Z) (key : bytes) (c : hcoll) : hcoll * reply :=
   if negb (key_ok key) then (c, RErr)
   else if st_size c =? 0 then (c, RInt 0)
-  else (clear_coll compact c, RInt 1).
+  else (clear_coll (lazy_clear compact ts (st_ver c)) c, RInt 1).
 
 (* reads *)
 Definition hlen (key : bytes) (c : hcoll) : reply :=
@@ -236,10 +239,10 @@ Definition spop (key : bytes) (count : option Z) (c : scoll) : scoll * reply :=
       end
   end.
 
-Definition sclear (compact : bool) (key : bytes) (c : scoll) : scoll * reply :=
+Definition sclear (compact : bool) (ts : Z) (key : bytes) (c : scoll) : scoll * reply :=
   if negb (key_ok key) then (c, RErr)
   else if st_size c =? 0 then (c, RInt 0)
-  else (clear_coll compact c, RInt 1).
+  else (clear_coll (lazy_clear compact ts (st_ver c)) c, RInt 1).
 
 Definition scard (key : bytes) (c : scoll) : reply :=
   if negb (key_ok key) then RErr else RInt (st_size c).
